@@ -625,50 +625,17 @@ Lemma astep_in_mtu c a cid lo hi n :
    then set_aconn a cid (mkAC (lo + 256 * hi) (ac_enc (aconn_of a cid)) (ac_pair (aconn_of a cid))) else a, XAny).
 Proof. reflexivity. Qed.
 
-Definition aprepare (c : cfg) (a : astate) (cid : nat) (qs h off : N) (data pdu : list N) (n : N) : astate * expect :=
-  let k := aconn_of a cid in
-  match attr_of c h with
-  | None => (a, XAny)
-  | Some at_ =>
-      let g := value_index at_ in
-      let mark m := match g with Some gi => set_mark a gi m | None => a end in
-      match aperm c (ac_enc k) (ac_pair k) at_ with
-      | AErr e => (mark (if (e =? 5) || (e =? 15) then m_security else m_rejected),
-                   XResp k_prep_denied (AErr e) g (err_rsp 22 h e))
-      | AOk =>
-          let other := match as_owner a with Some o => negb (Nat.eqb o cid) | None => false end in
-          if other then (mark m_prepared, XResp k_prep_other (AErr 9) g (err_rsp 22 h 9))
-          else if qs - queue_used (as_queue a) <? elem_cost data
-          then (mark m_prepared, XResp k_prep_full (AErr 9) g (err_rsp 22 h 9))
-          else
-            let a1 := mark m_prepared in
-            (set_queue a1 (Some cid) (as_queue a1 ++ [(h, off, data)]),
-             XResp k_prep_ok AOk g (23 :: sub (tl pdu) 0 (N.min (out_limit c a cid n) (len pdu) - 1)))
-      end
-  end.
-
 Lemma astep_in_prepare c a cid lo hi olo ohi data n :
   astep_in c a cid (22 :: lo :: hi :: olo :: ohi :: data) n =
   match wqueue c with
   | None => (a, XAny)
   | Some qs => aprepare c a cid qs (lo + 256 * hi) (olo + 256 * ohi) data (22 :: lo :: hi :: olo :: ohi :: data) n
   end.
-Proof. reflexivity. Qed.
-
-Definition aexec (c : cfg) (a : astate) (cid : nat) (flag : N) : astate * expect :=
-  if negb (flag =? 0) && negb (flag =? 1) then (a, XAny)
-  else
-    let mine := match as_owner a with Some o => Nat.eqb o cid | None => false end in
-    if (flag =? 1) && mine then
-      let '(a1, failure) := aexecute c a cid (as_queue a) in
-      (arelease c a1 cid false,
-       XResp k_exec (match failure with Some (_, e) => AErr e | None => AOk end) None
-             (match failure with Some (h, e) => err_rsp 24 h e | None => [25] end))
-    else (arelease c a cid true, XResp (if flag =? 1 then k_exec else k_exec_cancel) AOk None [25]).
+Proof. unfold astep_in. cbn [N.eqb Pos.eqb]. destruct (wqueue c); reflexivity. Qed.
 
 Lemma astep_in_execute c a cid flag n :
   astep_in c a cid [24; flag] n = match wqueue c with None => (a, XAny) | Some _ => aexec c a cid flag end.
-Proof. reflexivity. Qed.
+Proof. unfold astep_in. cbn [N.eqb Pos.eqb]. destruct (wqueue c); reflexivity. Qed.
 
 (* ------------------------------------------------------------------ Prepare Write *)
 (* a characteristic value behind a write handler: the known finding of C07 (the probe calls the handler) *)
@@ -871,4 +838,197 @@ Proof.
       match goal with X : put b 0 [25] = Some ?x |- _ => apply put_spec in X; destruct X as [X B]; change (N.to_nat 0) with 0%nat in *;
         cbn [firstn app Nat.add length] in *; subst x end.
       split; [unfold len; cbn [length]; lia|]. split; [apply release_sim; exact S|]. reflexivity.
+Qed.
+
+(* ------------------------------------------------------------------ requests that only read *)
+Lemma collect_attribute_same c st cid k e index a st' k' :
+  collect_attribute c st cid k e index a = Some (st', k') -> same_but_reads st st'.
+Proof.
+  unfold collect_attribute. destruct (2 <=? e - co_cur k); [|intros H; mon; apply same_but_reads_refl].
+  cbv zeta. destruct (access_read c st cid a index 0 _) as [[[st1 rc] d]|] eqn:ER; [|discriminate].
+  apply access_read_same in ER. destruct rc.
+  - destruct (253 <? len d); [discriminate|]. intros H. mon. destruct (_ =? _) in H; mon; exact ER.
+  - intros H. mon. exact ER.
+  - intros H. mon. exact ER.
+Qed.
+
+Lemma all_attributes_same fuel c cid f e last eh : forall st k index st' k',
+  all_attributes fuel c st cid f k e index last eh = Some (st', k') -> same_but_reads st st'.
+Proof.
+  induction fuel as [|n IH]; intros st k index st' k' H; cbn [all_attributes] in H.
+  - mon. apply same_but_reads_refl.
+  - destruct ((index <=? last) && (handle_by_index c index <=? eh)); [|mon; apply same_but_reads_refl].
+    destruct (attribute_at c index) as [a|]; [|discriminate].
+    destruct (uuid_filter_match f a).
+    + destruct (collect_attribute c st cid k e index a) as [[st1 k1]|] eqn:EC; [|discriminate].
+      apply collect_attribute_same in EC. apply IH in H. eapply same_but_reads_trans; eauto.
+    + apply IH in H. exact H.
+Qed.
+
+Lemma read_by_type_same c st cid pdu b out_size st' r :
+  handle_read_by_type c st cid pdu b out_size = Some (st', r) -> same_but_reads st st'.
+Proof.
+  unfold handle_read_by_type. intros H. mon. destruct c0 as [f|[sh eh]]; mon; [apply same_but_reads_refl|].
+  apply all_attributes_same in E2. destruct (negb (co_cur c0 =? 2)); mon; exact E2.
+Qed.
+
+Lemma read_multiple_loop_same c cid opcode b0 out_size : forall hs st b p st' r,
+  read_multiple_loop c st cid opcode hs b0 b p out_size = Some (st', r) -> same_but_reads st st'.
+Proof.
+  fix IH 1. intros hs st b p st' r H. destruct hs as [|lo [|hi t]]; cbn [read_multiple_loop] in H.
+  - mon. apply same_but_reads_refl.
+  - mon. apply same_but_reads_refl.
+  - cbv zeta in H. destruct (lo + 256 * hi =? 0); [mon; apply same_but_reads_refl|].
+    destruct (index_by_handle c (lo + 256 * hi) =? invalid_index); [mon; apply same_but_reads_refl|].
+    destruct (attribute_at c (index_by_handle c (lo + 256 * hi))) as [a|]; [|discriminate].
+    destruct (access_read c st cid a _ 0 _) as [[[st1 rc] d]|] eqn:ER; [|discriminate].
+    apply access_read_same in ER. destruct rc.
+    + destruct (put b p d) as [b1|]; [|discriminate]. destruct (out_size <? p + len d); [discriminate|].
+      apply IH in H. eapply same_but_reads_trans; eauto.
+    + mon. exact ER.
+    + mon. exact ER.
+Qed.
+
+Lemma read_multiple_same c st cid pdu b out_size st' r :
+  handle_read_multiple c st cid pdu b out_size = Some (st', r) -> same_but_reads st st'.
+Proof.
+  unfold handle_read_multiple. intros H. mon. destruct ((len pdu <? 5) || (len pdu mod 2 =? 0)); mon; [apply same_but_reads_refl|].
+  eapply read_multiple_loop_same; eauto.
+Qed.
+
+Lemma handle_read_same c st cid pdu b out_size st' r :
+  handle_read c st cid pdu b out_size = Some (st', r) -> same_but_reads st st'.
+Proof.
+  unfold handle_read, handle_read_common. intros H. mon. destruct c0 as [f|[h i]]; mon; [apply same_but_reads_refl|].
+  match goal with X : access_read _ _ _ _ _ _ _ = Some (_, ?rc, _) |- _ => apply access_read_same in X; destruct rc; mon; exact X end.
+Qed.
+
+Lemma handle_read_blob_same c st cid pdu b out_size st' r :
+  handle_read_blob c st cid pdu b out_size = Some (st', r) -> same_but_reads st st'.
+Proof.
+  unfold handle_read_blob, handle_read_common. intros H. mon. destruct c0 as [f|[h i]]; mon; [apply same_but_reads_refl|].
+  match goal with X : access_read _ _ _ _ _ _ _ = Some (_, ?rc, _) |- _ => apply access_read_same in X; destruct rc; mon; exact X end.
+Qed.
+
+(* ------------------------------------------------------------------ l2cap_input as a whole *)
+Lemma sim_set_mtu c st a cid k mtu :
+  sim c st a -> get_conn st cid = Some k ->
+  sim c (set_conn st cid (mkConn mtu (cccd k) (encrypted k) (pairing k) (nq k)))
+        (set_aconn a cid (mkAC mtu (ac_enc (aconn_of a cid)) (ac_pair (aconn_of a cid)))).
+Proof.
+  intros S G. rewrite (sim_conn c st a cid k S G). destruct S as [H1 H2 H3 H4 H5 H6]. constructor; cbn; try assumption.
+  rewrite H3, map_upd. reflexivity.
+Qed.
+
+Lemma out_limit_eq c st a cid k n : sim c st a -> get_conn st cid = Some k -> out_limit c a cid n = N.min n (negotiated_mtu c k).
+Proof. intros S G. unfold out_limit, negotiated_mtu. rewrite (sim_conn c st a cid k S G). reflexivity. Qed.
+
+Lemma sim_step_in c st a cid pdu n st' rs :
+  sim c st a -> no_k1 c -> no_k2 c ->
+  att_input c st cid pdu n = Some (st', rs) ->
+  sim c st' (fst (astep c a (OpIn cid pdu n))) /\ sat (snd (astep c a (OpIn cid pdu n))) (OBytes rs).
+Proof.
+  intros Sm NK1 NK2 H.
+  destruct (get_conn st cid) as [k|] eqn:G; [|unfold att_input in H; rewrite G in H; discriminate].
+  destruct pdu as [|op t]; [unfold att_input in H; rewrite G in H; cbn in H; discriminate|].
+  destruct (att_input_inv _ _ _ _ _ _ _ _ _ G H) as (Ho & b' & m & L & -> & D). clear H.
+  pose proof (out_limit_eq c st a cid k n Sm G) as OL.
+  cbn [astep]. rewrite len_cons.
+  replace (1 + len t =? 0) with false by (symmetry; apply N.eqb_neq; lia).
+  change (N.min n (N.min (max_mtu c) (ac_mtu (aconn_of a cid)))) with (out_limit c a cid n).
+  rewrite OL. replace (N.min n (negotiated_mtu c k) <? default_att_mtu) with false by (symmetry; apply N.ltb_ge; exact Ho).
+  cbn [orb]. unfold astep_in.
+  set (b := repeat fill_byte (N.to_nat n)) in *. set (out_size := N.min n (negotiated_mtu c k)) in *.
+  destruct (op =? 2) eqn:E2.
+  { (* Exchange MTU *)
+    apply N.eqb_eq in E2. subst op. cbn [N.eqb Pos.eqb] in D. unfold handle_exchange_mtu in D. rewrite rd_0 in D.
+    destruct t as [|lo [|hi [|x t']]].
+    1,2,4: (match type of D with context [len ?l =? 3] =>
+              replace (len l =? 3) with false in D by (symmetry; apply N.eqb_neq; rewrite ?len_cons; unfold len; cbn [length]; lia) end;
+            cbn [negb] in D; mon; split; [exact Sm|exact I]).
+    replace (len [2; lo; hi] =? 3) with true in D by reflexivity. cbn [negb] in D.
+    rewrite rd16_1 in D. rewrite G in D. unfold default_att_mtu in *.
+    destruct (lo + 256 * hi <? 23) eqn:EL.
+    + mon. replace (23 <=? lo + 256 * hi) with false by (symmetry; apply N.leb_gt; apply N.ltb_lt; exact EL). split; [exact Sm|exact I].
+    + mon. replace (23 <=? lo + 256 * hi) with true by (symmetry; apply N.leb_le; apply N.ltb_ge; exact EL).
+      split; [|exact I]. apply sim_set_mtu; assumption. }
+  destruct (op =? 10) eqn:E10.
+  { apply N.eqb_eq in E10. subst op. cbn [N.eqb Pos.eqb] in D.
+    destruct t as [|lo [|hi [|x t']]];
+      try (split; [eapply sim_reads; [exact Sm|eapply handle_read_same; exact D]|exact I]).
+    destruct (handle_read_sim c st a cid k lo hi b out_size n st' b' m Sm G NK1 Ho (eq_sym OL) D) as (Same & _ & Sat).
+    split; [eapply sim_reads; eauto|exact Sat]. }
+  destruct (op =? 12) eqn:E12.
+  { apply N.eqb_eq in E12. subst op. cbn [N.eqb Pos.eqb] in D.
+    destruct t as [|lo [|hi [|olo [|ohi [|x t']]]]];
+      try (split; [eapply sim_reads; [exact Sm|eapply handle_read_blob_same; exact D]|exact I]).
+    destruct (handle_read_blob_sim c st a cid k lo hi olo ohi b out_size n st' b' m Sm G NK1 Ho (eq_sym OL) D) as (Same & _ & Sat).
+    split; [eapply sim_reads; eauto|exact Sat]. }
+  destruct (op =? 18) eqn:E18.
+  { apply N.eqb_eq in E18. subst op. cbn [N.eqb Pos.eqb] in D.
+    destruct t as [|lo [|hi data]].
+    - unfold handle_write_request in D. rewrite rd_0 in D. cbn [len length N.of_nat Pos.of_succ_nat N.ltb N.compare Pos.compare Pos.compare_cont] in D.
+      mon. split; [exact Sm|exact I].
+    - unfold handle_write_request in D. rewrite rd_0 in D. cbn [len length N.of_nat Pos.of_succ_nat Pos.succ N.ltb N.compare Pos.compare Pos.compare_cont] in D.
+      mon. split; [exact Sm|exact I].
+    - destruct (handle_write_request_sim c st a cid k 18 lo hi data b out_size st' b' m Sm G Ho D) as [_ W].
+      destruct (attr_of c (lo + 256 * hi)) as [at_|]; [|split; [exact W|exact I]].
+      destruct W as [S1 T]. destruct (awrite c a cid at_ 0 data m_written) as [r a1]. cbn [fst snd] in *.
+      split; [exact S1|]. cbn [sat]. rewrite T. reflexivity. }
+  destruct (op =? 82) eqn:E82.
+  { apply N.eqb_eq in E82. subst op. cbn [N.eqb Pos.eqb] in D. unfold handle_write_command in D.
+    destruct (handle_write_request c st cid (82 :: t) b out_size) as [[st1 [b1 m1]]|] eqn:EW; [|discriminate].
+    apply some_inj in D. apply pair_inj in D. destruct D as [-> D]. apply pair_inj in D. destruct D as [-> <-].
+    destruct t as [|lo [|hi data]].
+    - unfold handle_write_request in EW. rewrite rd_0 in EW. cbn [len length N.of_nat Pos.of_succ_nat N.ltb N.compare Pos.compare Pos.compare_cont] in EW.
+      mon. split; [exact Sm|exact I].
+    - unfold handle_write_request in EW. rewrite rd_0 in EW. cbn [len length N.of_nat Pos.of_succ_nat Pos.succ N.ltb N.compare Pos.compare Pos.compare_cont] in EW.
+      mon. split; [exact Sm|exact I].
+    - destruct (handle_write_request_sim c st a cid k 82 lo hi data b out_size st' b' m1 Sm G Ho EW) as [_ W].
+      destruct (attr_of c (lo + 256 * hi)) as [at_|]; [|split; [exact W|exact I]].
+      destruct W as [S1 _]. split; [exact S1|exact I]. }
+  destruct (op =? 22) eqn:E22.
+  { apply N.eqb_eq in E22. subst op. cbn [N.eqb Pos.eqb] in D.
+    destruct (wqueue c) as [qs|] eqn:Hq.
+    2:{ unfold handle_prepare_write in D. rewrite rd_0, Hq in D. mon.
+        destruct t as [|lo [|hi [|olo [|ohi data]]]]; (split; [exact Sm|exact I]). }
+    destruct t as [|lo [|hi [|olo [|ohi data]]]];
+      try (unfold handle_prepare_write in D; rewrite rd_0, Hq in D;
+           cbn [len length N.of_nat Pos.of_succ_nat Pos.succ N.ltb N.compare Pos.compare Pos.compare_cont] in D; mon; split; [exact Sm|exact I]).
+    unfold out_size in *. rewrite <- OL in D, Ho.
+    destruct (handle_prepare_write_sim c st a cid k qs lo hi olo ohi data _ n st' b' m Sm G NK2 Hq Ho D) as (_ & S1 & Sat).
+    split; assumption. }
+  destruct (op =? 24) eqn:E24.
+  { apply N.eqb_eq in E24. subst op. cbn [N.eqb Pos.eqb] in D.
+    destruct (wqueue c) as [qs|] eqn:Hq.
+    2:{ unfold handle_execute_write in D. rewrite rd_0, Hq in D. mon.
+        destruct t as [|flag [|x t']]; (split; [exact Sm|exact I]). }
+    destruct t as [|flag [|x t']].
+    - unfold handle_execute_write in D. rewrite rd_0, Hq in D. cbn [len length N.of_nat Pos.of_succ_nat N.eqb Pos.eqb negb] in D.
+      mon. split; [exact Sm|exact I].
+    - destruct (handle_execute_write_sim c st a cid k qs flag b out_size st' b' m Sm G Hq Ho D) as (_ & S1 & Sat). split; assumption.
+    - unfold handle_execute_write in D. rewrite rd_0, Hq in D.
+      replace (len (24 :: flag :: x :: t') =? 2) with false in D by (symmetry; apply N.eqb_neq; rewrite !len_cons; lia).
+      cbn [negb] in D. mon. split; [exact Sm|exact I]. }
+  (* every other opcode: nothing the reference state tracks changes *)
+  apply N.eqb_neq in E2, E10, E12, E18, E82, E22, E24.
+  split; [|exact I].
+  destruct (op =? 1); [mon; exact Sm|].
+  destruct (op =? 2) eqn:X2; [apply N.eqb_eq in X2; contradiction|].
+  destruct (op =? 4); [mon; exact Sm|].
+  destruct (op =? 6); [mon; exact Sm|].
+  destruct (op =? 8); [eapply sim_reads; [exact Sm|eapply read_by_type_same; exact D]|].
+  destruct (op =? 10) eqn:X10; [apply N.eqb_eq in X10; contradiction|].
+  destruct (op =? 12) eqn:X12; [apply N.eqb_eq in X12; contradiction|].
+  destruct (op =? 16); [mon; exact Sm|].
+  destruct (op =? 14); [eapply sim_reads; [exact Sm|eapply read_multiple_same; exact D]|].
+  destruct (op =? 18) eqn:X18; [apply N.eqb_eq in X18; contradiction|].
+  destruct (op =? 82) eqn:X82; [apply N.eqb_eq in X82; contradiction|].
+  destruct (op =? 22) eqn:X22; [apply N.eqb_eq in X22; contradiction|].
+  destruct (op =? 24) eqn:X24; [apply N.eqb_eq in X24; contradiction|].
+  destruct (op =? 30).
+  - unfold handle_confirmation in D. rewrite rd_0 in D. destruct (negb (len (op :: t) =? 1)); [mon; exact Sm|].
+    rewrite G in D. mon. unfold nq_step. destruct (NQueueModel.step (nq k) Confirm) as [q r]. cbn [fst].
+    eapply sim_set_conn; eauto.
+  - mon. exact Sm.
 Qed.
